@@ -30,7 +30,7 @@ ASSUMPTIONS = [
 BIN = sorted(tt.BINARY)
 
 
-HIST_ALPHA = {'build': 6, 'apply': 14, 'funcop': 6, 'not': 2, 'ite': 8, 'drop': 8, 'gc': 6, 'gc_roots': 2, 'swap': 3, 'sift': 1, 'reorder_to': 1, 'var': 1, 'undeclare': 2, 'declare': 1, 'add_var': 1, 'quantify': 1, 'let_compose': 1}
+HIST_ALPHA = {'build': 6, 'repeat': 6, 'apply': 14, 'funcop': 6, 'not': 2, 'ite': 8, 'drop': 8, 'gc': 6, 'gc_roots': 2, 'swap': 3, 'sift': 1, 'reorder_to': 1, 'var': 1, 'undeclare': 2, 'declare': 1, 'add_var': 1, 'quantify': 1, 'let_compose': 1}
 
 
 def _hist_nontrivial(w):
